@@ -544,12 +544,29 @@ fn expand_includes_mode(text: &str, root: &Path, depth: usize, trusted: bool) ->
     let mut out = String::new();
     for line in text.lines() {
         if let Some(rest) = line.trim_start().strip_prefix("//@include") {
+            // `//@include-proved F`: the proof fns of F are proved in F's home slice (the one that includes F plainly);
+            // here their bodies are not re-checked (external_body): smaller, more stable queries (R7a for lemmas)
+            let (rest, proved) = match rest.strip_prefix("-proved") {
+                Some(r) => (r, true),
+                None => (rest, false),
+            };
             let (rest, sub_trusted) = match rest.strip_prefix("-trusted") {
                 Some(r) => (r, true),
                 None => (rest, trusted),
             };
             let p = root.join(rest.trim());
-            let inc = std::fs::read_to_string(&p).unwrap_or_else(|e| die(&format!("cannot include {:?}: {}", p, e)));
+            let mut inc = std::fs::read_to_string(&p).unwrap_or_else(|e| die(&format!("cannot include {:?}: {}", p, e)));
+            if proved {
+                let mut t = String::new();
+                for l in inc.lines() {
+                    if l.starts_with("pub proof fn ") || l.starts_with("pub broadcast proof fn ") || l.starts_with("proof fn ") {
+                        t.push_str("#[verifier::external_body] /* include-proved: body proved in the home slice of this file */\n");
+                    }
+                    t.push_str(l);
+                    t.push('\n');
+                }
+                inc = t;
+            }
             out.push_str(&format!("// ---- begin include {} ----\n", rest.trim()));
             out.push_str(&expand_includes_mode(&inc, root, depth + 1, sub_trusted));
             out.push_str(&format!("// ---- end include {} ----\n", rest.trim()));
